@@ -1,7 +1,9 @@
 (* The behaviour before the repairs, kept machine-checked on small historic models:
    D42  RemoteClient.DumpDatabase had no relkind filter (before eb776ad): an index with rows was dumped as a table;
    D43  RemoteClient.Database/Table took the first strings.EqualFold match (before d4aad97): of two names differing
-        only in case the second could not be reached. *)
+        only in case the second could not be reached;
+   D63  RemoteClient.DumpAll listed a database whose directory (pg_class) cannot be read, with no tables, while
+        DumpDataDir leaves such a database out (before "fix: RemoteClient.DumpAll listed a database whose pg_class ..."). *)
 Require Import PG.Base.Bytes PG.Base.Value PG.C12.Lib PG.C12.Model PG.C12.Spec PG.C12.DumpProofs.
 Require Import Coq.Sorting.Permutation.
 
@@ -79,4 +81,16 @@ Proof.
   exists [["A"; "p"; "p"]%byte; ["a"; "p"; "p"]%byte], ["a"; "p"; "p"]%byte.
   split; [repeat constructor; cbn; intuition discriminate|]. split; [right; left; reflexivity|].
   vm_compute. discriminate.
+Qed.
+
+(* ---------------------------------------------------------------- D63 *)
+Definition p_dump_all_h2 (E : env) (fs : fsys) : list DatabaseDump :=
+  flat_map (fun db => if has_prefix (db_name db) s_template then [] else
+                      match p_dump_database E fs (db_oid db) with Some d => [d] | None => [] end) (p_dbs E fs).
+(* pg_database lists database 1, but there is no base/1 *)
+Definition w_fs2 : fsys := fun p => match p with PGlobal _ => Some [x00] | _ => None end.
+Theorem missing_directory_refuted :
+  exists E fs, DumpDataDir E fs None = Some [] /\ p_dump_all_h2 E fs <> [] /\ p_dump_all E fs = [].
+Proof.
+  exists w_env, w_fs2. split; [vm_compute; reflexivity|]. split; [vm_compute; discriminate|vm_compute; reflexivity].
 Qed.
